@@ -63,9 +63,11 @@ fn band_version_requirement() -> semver::VersionReq {
 }
 
 fn band_version_supported(version: &str) -> bool {
+    // A version string that doesn't parse (perhaps because the head file is damaged)
+    // is certainly not one that we know how to read.
     semver::Version::parse(version)
         .map(|sv| band_version_requirement().matches(&sv))
-        .unwrap()
+        .unwrap_or(false)
 }
 
 /// Each backup makes a new `band` containing an index directory.
